@@ -230,9 +230,10 @@ class Render:
             if d["syntax"] is not None:
                 kw("SYNTAX")
                 syn = d["syntax"] + ("{%d}" % d["syntax_length"] if d["syntax_length"] is not None else "")
-                if not self.canon and d["syntax_length"] is None and self.r.random() < 0.3:
+                if not self.canon and self.r.random() < 0.3:
+                    # the quotes Active Directory writes around the SYNTAX value (a pure wrapper, also around a {len} bound)
                     syn = "'" + syn + "'"
-                    self.used.add("syntax:quoted")
+                    self.used.add("syntax:quoted" if d["syntax_length"] is None else "syntax:quoted-with-length")
                 s += self.SP("SYNTAX") + "SYNTAX" + self.SP("SYNTAX.v") + syn
             for k, key in (("SINGLE-VALUE", "single_value"), ("COLLECTIVE", "collective"), ("NO-USER-MODIFICATION", "no_user_modification")):
                 if d[key]:
